@@ -369,6 +369,9 @@ def opts_predicate(line, obs):
 def full_predicate(line, obs):
     if obs is None:
         return "no output"
+    if line.startswith("(dstress"):
+        from . import queueref as _Q
+        return _Q.stress_predicate(line, obs)
     if line.startswith("(dqprobe"):
         if obs != "probe unlocked=0 returned=1":
             return ("a cancellation landing between the waiter's select and cond.Wait is lost: the helper's Broadcast ran "
@@ -509,7 +512,17 @@ def gen_opts(rng):
     return C.sx(["dequeopts", u, c, q])
 
 
+def gen_stress(rng, tier):
+    big = tier != "quick"
+    k = rng.choice(["force", "force", "drain"])
+    n = rng.choice([3000, 8000] if not big else [30000, 80000])
+    return C.sx(["dstress", ["kind", k], ["cap", rng.choice([1, 2, 4, 7])], ["n", n], ["spin", rng.choice([2, 3, 4])],
+                 ["pushers", rng.choice([2, 3])]])
+
+
 def features(line, obs):
+    if line.startswith("(dstress"):
+        return ["dq:stress:" + line.split("(kind ")[1].split(")")[0]]
     if line.startswith("(dqprobe"):
         return ["dq:probe"]
     if line.startswith("(dequeopts"):
@@ -533,6 +546,8 @@ def features(line, obs):
 
 
 def nontrivial(line, obs):
+    if line.startswith("(dstress"):
+        return obs is not None
     if line.startswith("(dequeopts"):
         return obs is not None
     return obs is not None and "park:" in obs and re.search(r"wake=\[\d", obs) is not None
